@@ -348,7 +348,8 @@ class C06(vlib.Spec):
         "pbgen-regenerated protobuf Go code (commonv1.ResourceOpts)",
         "directory-name order = start order (segment ids are the decimal wall-clock reading; modelled as the truncated reading)",
         "export hooks hooks/banyand/{stream,measure}/zz_verif_seg.go (write-queue tsTable with only the introducer loop running, "
-        "real mergeMemParts); this seam is checked by the oracle only, it has no Lean model",
+        "real mergeMemParts) and hooks/banyand/{stream,trace}/zz_verif_seg*.go (write callback's per-batch grouping on a real TSDB); "
+        "these seams are checked by the oracle only, they have no Lean model",
     ]
     assumptions = [
         "zone transitions lie on whole seconds; float64 arithmetic of Duration.Hours()+12 is exact for whole-second offsets",
